@@ -6,4 +6,4 @@ mod listfile;
 
 pub use attributes::{AttributeFlags, Attributes, FileAttributes};
 pub use info::{SpecialFileInfo, get_special_file_info};
-pub use listfile::parse_listfile;
+pub use listfile::{parse_listfile, parse_listfile_with};
